@@ -88,6 +88,14 @@ def gen_cases(tier):
                     yield ('color', kind, v, sub, 5)
                     if kind != 'ppm' and r == 1:
                         yield ('color', kind, v, sub, 6)
+            if kind == 'png':
+                # black (or another colour) that enters the picture only through per-type options while dark / light are transparent (7)
+                for sub in itertools.combinations(range(15), 1):
+                    yield ('color', kind, v, sub, 7)
+            if kind in ('png', 'ppm') and v in (2, 7):
+                # the command line tool's per-type colour flags (8)
+                for sub in itertools.combinations(range(15), 1):
+                    yield ('color', kind, v, sub, 8)
             if kind == 'png' and v in ('M4', 7):
                 # transparent light modules + 2..4 further colours: palettes of 4, 5 and 6 entries incl. the transparent one
                 for r in (2, 3, 4):
@@ -215,6 +223,33 @@ def cls_name(cls, i, j, size):
     return cls[i][j] if 0 <= i < size and 0 <= j < size else 'quiet'
 
 
+CLI_FLAG = {'alignment_dark': '--align-dark', 'alignment_light': '--align-light'}
+
+
+def cli_render(qr, v, fmt, kw):
+    import contextlib
+    import os
+    import shutil
+    import tempfile
+    from segno import cli
+    tmp = tempfile.mkdtemp(prefix='verif-c11-')
+    try:
+        path = os.path.join(tmp, 'out.' + fmt)
+        lvl = T.levels_of(v)[-1]
+        argv = ['--version', str(v), '--error', lvl, '--mode', 'numeric', '--no-error-boost', '--pattern', str(qr.mask)]
+        for k, val in kw.items():
+            argv += [CLI_FLAG.get(k, '--' + k.replace('_', '-')), str(val)]
+        n = max(1, C.max_count('numeric', v, lvl) // 2)
+        with contextlib.redirect_stdout(io.StringIO()), contextlib.redirect_stderr(io.StringIO()):
+            rc = cli.main(argv + ['--output', path, C.content_of('numeric', n, 0)])
+        if rc != 0:
+            raise ValueError('command line tool returned %r' % rc)
+        with open(path, 'rb') as f:
+            return f.read()
+    finally:
+        shutil.rmtree(tmp, ignore_errors=True)
+
+
 def do_color(fmt, v, sub, variant, acc):
     case = ('color', fmt, v, sub, variant)
     qr = symbol(v)
@@ -255,6 +290,26 @@ def do_color(fmt, v, sub, variant, acc):
         kw = {'dark': dark, 'light': light}
         for i in sub:
             kw[OPTS[i]] = '#ff000040'
+    if variant == 7:
+        o = OPTS[sub[0]]
+        pattern = sub[0] % 3
+        present = {expected_option(cls[i][j], m[i][j])[0] for i in range(size) for j in range(size)} | {'quiet_zone'}
+        if o not in present:
+            return              # (the module type does not occur in this symbol: everything would be transparent, which is not a documented request)
+        if pattern == 0:
+            dark, light = None, None
+            kw = {'dark': None, 'light': None, o: 'black'}
+        elif pattern == 1:
+            dark, light = 'black', None
+            kw = {'dark': 'black', 'light': None, o: None}
+        else:
+            dark, light = None, 'black'
+            kw = {'dark': None, 'light': 'black', o: None if o != 'quiet_zone' else 'white'}
+    if variant == 8:
+        dark, light = '#000', '#fff'
+        kw = {OPTS[i]: OPT_COLOR[OPTS[i]] for i in sub}
+        if any(not isinstance(x, str) for x in kw.values()):
+            kw = {k: '#a0b0c0' for k in kw}
     if variant == 2:
         # transparent light modules + the first CSS colour as dark colour (the PNG writer's stand-in for "transparent")
         dark, light = 'aliceblue', None
@@ -272,12 +327,29 @@ def do_color(fmt, v, sub, variant, acc):
     n = size + 2 * b
     out = io.BytesIO()
     try:
-        qr.save(out, kind=fmt, **kw)
+        if variant == 8:
+            data = cli_render(qr, v, fmt, kw)
+        else:
+            if fmt == 'png' and variant in (0, 1):
+                # history: a plain black-and-white PNG of the same geometry right before (and, below, right after) the colourful one
+                qr.save(io.BytesIO(), kind='png', **{k: x for k, x in kw.items() if k in ('scale', 'border')})
+            qr.save(out, kind=fmt, **kw)
+            data = out.getvalue()
     except Exception as e:
         acc.eval(case, nontrivial=False, outcome='exc:' + C.exc_name(e))
         acc.violation('colour-exception/%s' % fmt, 'save(kind=%r, **%r) raised %s: %s' % (fmt, kw, C.exc_name(e), str(e)[:80]), case)
         return
-    data = out.getvalue()
+    if fmt == 'png' and variant in (0, 1):
+        bw = io.BytesIO()
+        qr.save(bw, kind='png', **{k: x for k, x in kw.items() if k in ('scale', 'border')})
+        try:
+            w2, h2, px2, _ = R.read_png(bw.getvalue())
+            bad2 = sum(1 for r in range(n) for c in range(n)
+                       if not Co.same_px(px2[r * scale][c * scale], Co.rgba('#000' if (0 <= r - b < size and 0 <= c - b < size and m[r - b][c - b]) else '#fff')))
+        except R.Malformed as e:
+            bad2 = 'malformed: %s' % e
+        if bad2:
+            acc.violation('png-after-colourful', 'a plain PNG written right after the colourful one (%r) is wrong: %s' % (sorted(kw), bad2), case)
     # observed colour per cell
     try:
         if fmt == 'png':
